@@ -10,6 +10,7 @@ import (
 	"fmt"
 	"os"
 	"runtime"
+	"strings"
 	"sync"
 	"unsafe"
 )
@@ -102,16 +103,26 @@ func (s *Sched) choose(step, cur int, cand []int) int {
 	return cand[int(d/1000)%len(cand)]
 }
 
+const controllerSlot = 70
+
+func slotOf(id int) int {
+	if id < 0 {
+		return controllerSlot
+	}
+	return id
+}
+
 //go:norace
 func (s *Sched) waitBaton(id int) {
 	for s.baton != id {
-		runtime.Gosched()
+		runtime.VerifPark(slotOf(id))
 	}
 }
 
 //go:norace
 func (s *Sched) pass(to int) {
 	s.baton = to
+	runtime.VerifReady(slotOf(to))
 }
 
 //go:norace
@@ -202,7 +213,8 @@ func (s *Sched) point(op string, addr unsafe.Pointer, blockedOn unsafe.Pointer) 
 //go:norace
 func (s *Sched) abort() {
 	// give the baton back to the controller; tasks stay parked forever (the process is recycled)
-	s.pass(-2)
+	s.baton = -2
+	runtime.VerifReady(controllerSlot)
 	select {}
 }
 
@@ -296,7 +308,7 @@ func (s *Sched) Run() {
 	}
 	s.start()
 	for !s.batonBack() {
-		runtime.Gosched()
+		runtime.VerifPark(controllerSlot)
 	}
 	if s.Deadlock == "" {
 		for _, t := range s.tasks {
@@ -314,8 +326,35 @@ func (s *Sched) start() {
 	s.pass(s.choose(0, -1, ids(len(s.tasks))))
 }
 
+// ModulePrefix selects the lock operations that are scheduling points: those issued directly by
+// code of the module under test (also through sync.Once). Lock traffic inside the standard library
+// (sync.Pool's allPoolsMu after a GC cycle, ...) depends on garbage-collection timing; taking it as
+// scheduling points would make the schedule drift from run to run.
+var ModulePrefix = "github.com/pdfcpu/pdfcpu/"
+
 //go:norace
-func (s *Sched) syncPoint(op string, addr unsafe.Pointer) { s.point(op, addr, nil) }
+func fromModule() bool {
+	var pcs [12]uintptr
+	n := runtime.Callers(4, pcs[:])
+	frames := runtime.CallersFrames(pcs[:n])
+	for {
+		f, more := frames.Next()
+		if strings.HasPrefix(f.Function, "sync.") {
+			if !more {
+				return false
+			}
+			continue
+		}
+		return strings.HasPrefix(f.Function, ModulePrefix)
+	}
+}
+
+//go:norace
+func (s *Sched) syncPoint(op string, addr unsafe.Pointer) {
+	if fromModule() {
+		s.point(op, addr, nil)
+	}
+}
 
 //go:norace
 func (s *Sched) syncBlocked(op string, addr unsafe.Pointer) { s.point("blocked-"+op, addr, addr) }
